@@ -12,7 +12,8 @@ import traceback
 _STATE = {}
 
 
-def _init(backend, precision, harness_dir, src):
+def _init(backend, precision, harness_dir, src, env=None):
+    os.environ.update(env or {})
     sys.path.insert(0, harness_dir)
     sys.path.insert(0, src)
     os.environ.setdefault("CUDA_VISIBLE_DEVICES", "")
@@ -22,7 +23,7 @@ def _init(backend, precision, harness_dir, src):
     import logging
     import warnings
     warnings.filterwarnings("ignore")
-    logging.disable(logging.WARNING)
+    logging.disable(logging.CRITICAL)
     import pyhf
     assert os.path.realpath(pyhf.__file__).startswith(os.path.realpath(src)), (pyhf.__file__, src)
     pyhf.set_backend(backend, precision=precision)
@@ -40,11 +41,11 @@ def _run_chunk(args):
         return {"machinery": traceback.format_exc()}
 
 
-def run_chunks(modname, funcname, chunks, *, backend="numpy", precision="64b", procs=16, kwargs=None):
+def run_chunks(modname, funcname, chunks, *, backend="numpy", precision="64b", procs=16, kwargs=None, env=None):
     from common import pyhf_src
     ctx = mp.get_context("spawn")
     harness_dir = os.path.dirname(os.path.abspath(__file__))
     with ctx.Pool(min(procs, max(1, len(chunks))), initializer=_init,
-                  initargs=(backend, precision, harness_dir, pyhf_src())) as pool:
+                  initargs=(backend, precision, harness_dir, pyhf_src(), env)) as pool:
         for res in pool.imap_unordered(_run_chunk, [(modname, funcname, c, kwargs or {}) for c in chunks]):
             yield res
